@@ -68,9 +68,7 @@ def impl_mday(case):
 
 def mday_line(case):
     (cls, stationary, per_day, per_site, upfront, budget, crews, cw, reqs) = case
-    rq = "[" + ",".join(
-        "[%d,%d,%d,%d,%d,%d,%d,%d,%d,%d]" % (sid, S, P, int(ip), trav, T, scost, w[0], w[1], w[2])
-        for (sid, S, P, ip, trav, T, scost, w) in reqs) + "]"
+    rq = C.reqs_token(reqs)
     e = C.ENV
     return "mday %d %s %d %d %d %d %d %d [%d,%d,%d,%d,%d,%d] %s" % (
         per_day, opt(per_site), upfront, C.SCALE_CODE[cls], int(stationary), budget, crews, int(cw),
